@@ -7,6 +7,7 @@ import (
 	gofs "io/fs"
 	"os"
 	"path/filepath"
+	"sort"
 	"strings"
 	"time"
 
@@ -360,6 +361,80 @@ func run1004(in Sx) Sx {
 
 var c10Names = []string{"a", "b", "ab", "c", "d", "x", "y", "a.b", "a b", "é", "b+", "ba", "a-b", "(a)", "a$"}
 var c10UnsafeNames = []string{"a{2}", "aa", "a|b", "xb", "\x80", "\x81", "{a}"}
+
+// c10MetaNames: entry names that contain pattern metacharacters literally; a pattern addresses them
+// by backslash-escaping ("app/\[id\]/page"): such a pattern has NO unescaped wildcard, but it is not
+// a byte prefix of the paths it matches, so it must not arm the prefix-only SkipDir shortcuts
+var c10MetaNames = []string{"[id]", "a*", "b?", "x]", "a\\b", "[a", "^a", "*"}
+
+// c10Escape: the pattern that matches exactly the path p: every metacharacter and backslash escaped
+func c10Escape(p string) string {
+	var b strings.Builder
+	for i := 0; i < len(p); i++ {
+		if strings.IndexByte("*?[]^\\", p[i]) >= 0 {
+			b.WriteByte('\\')
+		}
+		b.WriteByte(p[i])
+	}
+	return b.String()
+}
+
+// c10EscapedList: a list WITHOUT any unescaped wildcard in the patterns the classification looks
+// at, one of them with escaped metacharacters in directory components of a deep path:
+// side 'i': include list = escaped deep path (optionally + one trailing glob) + plain literals;
+// side 'e': exclude list = a covering literal + the escaped deep path as '!' exception.
+func c10EscapedList(r *Rng, paths []string, classes map[string]int) (out []string, side byte) {
+	var deep, plain []string
+	for _, p := range paths {
+		if strings.ContainsAny(p, "*?[]^\\") {
+			if strings.Count(p, "/") >= 1 {
+				deep = append(deep, p)
+			}
+		} else {
+			plain = append(plain, p)
+		}
+	}
+	if len(deep) == 0 {
+		return nil, 'i'
+	}
+	sort.Slice(deep, func(a, b int) bool { return strings.Count(deep[a], "/") > strings.Count(deep[b], "/") })
+	t := deep[r.Intn(1+len(deep)/2)] // prefer the deepest
+	esc := c10Escape(t)
+	if r.Chance(25) {
+		esc += Pick(r, []string{"/*", "/**"})
+	}
+	side = "ie"[r.Intn(2)]
+	if side == 'i' {
+		out = append(out, esc)
+		classes["escaped-literal"]++
+	} else {
+		cover := splitPath(t)[0]
+		if r.Bool() {
+			cover = c10Escape(cover)
+		} else {
+			cover = Pick(r, []string{"*", "**"})
+		}
+		out = append(out, cover, "!"+esc)
+		classes["!escaped-literal"]++
+	}
+	for n := r.Intn(3); n > 0 && len(plain) > 0; n-- {
+		q := Pick(r, plain)
+		if side == 'e' {
+			q = "!" + q
+		}
+		if r.Bool() {
+			out = append(out, q)
+		} else {
+			out = append([]string{q}, out...)
+		}
+	}
+	for _, q := range out {
+		if !validPattern(q) {
+			return nil, side
+		}
+	}
+	return out, side
+}
 
 // bushy, deep views over few names: every shortcut and the lazy emission of parents have
 // something to do
@@ -730,6 +805,10 @@ func genC10(g *Gen) {
 		if i%3 == 0 { // few names: deep chains, many hits
 			names = []string{"a", "b", "ab", "c", "a.b"}
 		}
+		metaNames := i%10 == 7 && !unsafeNames
+		if metaNames {
+			names = append([]string{"a", "b", "app", "c"}, c10MetaNames...)
+		}
 		var view []*MNode
 		if i%4 == 3 && !unsafeNames {
 			view = GenView(r, TreeOpts{MaxEntries: 4 + r.Intn(11), MaxDepth: 4, Names: names, Types: r.Chance(30), Xattrs: r.Chance(20), Owners: true})
@@ -758,6 +837,19 @@ func genC10(g *Gen) {
 		default:
 			inc = genPatternList(r, paths, view, classes, 0)
 			exc = genPatternList(r, paths, view, classes, 0)
+		}
+		if metaNames { // never build unescaped patterns from names with metacharacters ("[a" is a syntax error)
+			inc, exc = nil, nil
+			tag = "escaped-metachars"
+			if l, side := c10EscapedList(r, paths, classes); l != nil {
+				if side == 'i' {
+					inc = l
+				} else {
+					exc = l
+				}
+			} else if len(paths) > 0 {
+				inc = []string{c10Escape(Pick(r, paths))}
+			}
 		}
 		mt := genMapTable(r, paths, isDir)
 		if unsafeNames {
